@@ -33,7 +33,57 @@ RULE_SCTP = ("each evaluation is one simulated run: a generated program of creat
              "non-trivial when >=1 fault fired and >=1 message was delivered; distinct = distinct event-log digests "
              "among non-trivial runs")
 
+HIST_COMPONENTS = {
+    "JitterBuffer / RemoteBitrateEstimator / RTCRtpReceiver statistics + RTCP report task / RtpRouter": "real",
+    "RTCDtlsTransport": "stub (captures what the receiver sends; hands arrivals over one at a time)",
+    "decoder thread": "not started (threading/queue seams of aiortc.rtcrtpreceiver rebound)",
+    "asyncio loop, clock, RNG, network": "simulated",
+}
+HIST_ASSUME = [
+    "arrival histories are produced by the simulated network (loss, duplication, delay, reordering) and the simulated clock; the object under test is fed exactly what arrives, when it arrives",
+    "sampling, not enumeration: a clean batch is evidence, not proof",
+]
+
+
+def _hist(world, rule, measure, quick_s=30, thorough_s=480, probes=(), level="exploration"):
+    def build():
+        from ..engines import history_sim
+        return {
+            "fn": history_sim.run, "spec": {"world": world}, "level": level,
+            "quick_s": quick_s, "thorough_s": thorough_s, "rule": rule,
+            "components": HIST_COMPONENTS, "state_measure": measure,
+            "assumptions": HIST_ASSUME, "probes_expected": list(probes),
+        }
+    return build
+
+
+RULE_JB = ("each evaluation is one simulated history: a generated sender stream (frames of 1..12 packets, sequence/timestamp "
+           "origins anywhere incl. wraparound, sender jumps, merged timestamps) through SimNet into a real JitterBuffer, "
+           "every add() judged against the list of packets that arrived; non-trivial = >=1 frame released and >=1 network "
+           "fault fired; distinct = distinct event-log digests among non-trivial runs")
+RULE_BWE = ("each evaluation is one simulated arrival history: segments of traffic (rates 10..3000 pps, sizes 0..1500, idle gaps, "
+            "bursts, bottleneck squeezes that build queues) stamped by a sender clock with arbitrary origin, through a "
+            "bottleneck + SimNet into a real RemoteBitrateEstimator; non-trivial = >20 arrivals and >=1 estimate; distinct = "
+            "distinct event-log digests")
+RULE_STATS = ("each evaluation is one simulated RTP stream history (runs of packets, sequence/timestamp jumps, wall-clock jumps, "
+              "loss/duplication/reordering by SimNet) into a real RTCRtpReceiver whose own RTCP task emits receiver reports at its "
+              "seeded intervals; every report block on the wire is compared with an RFC 3550 reference fed the same arrivals; "
+              "non-trivial = >=1 receiver report judged and >5 arrivals")
+RULE_ROUTER = ("each evaluation is one history of register/unregister operations (overlapping payload types, SSRC latching) "
+               "interleaved by scheduler and network with RTP and RTCP packets of every type, each routing decision compared with a "
+               "dict-based reference router; non-trivial = >3 routed packets")
+
 REGISTRY = {
+    "C10": _hist("jb", RULE_JB, "(ring occupancy quartile, frame released, key-frame request, order premise intact) after every add()",
+                 probes=["frames_released", "pli", "threw_away_held_packets", "complete_premise_held", "late_100_or_more"]),
+    "C15": _hist("bwe", RULE_BWE, "(detector hypothesis, rate-control state, estimate emitted) after every arrival",
+                 probes=["estimates", "overuse_updates", "underuse_updates", "abs_send_time_wrapped",
+                         "window_restarted_after_idle", "zero_size_packets"]),
+    "C18": _hist("stats", RULE_STATS, "number of report blocks per receiver report",
+                 probes=["receiver_reports", "rr_after_sequence_wrap", "sequence_cycle_completed", "getstats_calls"]),
+    "C12": _hist("router", RULE_ROUTER, "(receivers registered, senders registered, latched SSRCs) after every routed packet",
+                 probes=["ssrc_latched", "rtp_known_ssrc", "rtp_dropped_ambiguous", "rtp_dropped_unknown",
+                         "rtcp_delivered_remb", "rtcp_delivered_sr", "rtcp_delivered_bye"]),
     "C01": _sctp("c01", RULE_SCTP, probes=["fragmented_messages", "empty_messages", "messages_delivered"]),
     "C02": _sctp("c02", RULE_SCTP, probes=["drained_after_heal", "probe_delivered"]),
     "C06": _sctp("c06", RULE_SCTP, probes=["probe_delivered"]),
